@@ -458,3 +458,51 @@ Theorem C15_sw_item_line_free : forall (uc : unicode) (cfg : sw_config),
     c15_contained C15sw LCode (mark (c15_file_pieces C15sw parts)) = true.
 Proof. exact Proofs.C15_SwiftItem.C15_sw_item_line_free. Qed.
 Print Assumptions C15_sw_item_line_free.
+
+(* ---- Swift, WHOLE FILES (sw_generate: version header, `import Foundation`, the items in topological order with the
+   printer state - "() was translated" - threaded through them, the CodableVoid helper struct at the end when it was), no
+   neutrality hypothesis.  For every parsed program whose items are in the class of C15_sw_item, under the configuration
+   hypotheses of C15_sw_item, with plain codablevoid constraints (printed in the head of the helper struct) and a version
+   string without `*` and `/` (it is printed inside a block comment, which nests in Swift): the generated file is code parts
+   and `/// ` fragments whose doc strings are the doc strings of the items in output order (a permutation of the program's
+   items; per item Swift's print order, trailing white space removed), followed - when the helper struct is printed - by the
+   comment line typeshare writes itself; the file is contained iff all doc strings of the items are safe_sw.  Second
+   theorem: when the doc strings are free of line breaks (every parsed item: C15_parsed_*_line_free) it is contained. ---- *)
+Theorem C15_sw_file : forall (uc : unicode) (cfg : sw_config),
+  c15_sw_raw (sw_prefix cfg) = true ->
+  c15_mappings_plain C15sw (sw_type_mappings cfg) = true ->
+  forallb (c15_plain C15sw) (sw_default_decorators cfg) = true ->
+  forallb (c15_plain C15sw) (sw_default_generic_constraints cfg) = true ->
+  forallb (c15_plain C15sw) (sw_codablevoid_constraints cfg) = true ->
+  c15_sw_version_ok (sw_version cfg) = true ->
+  forall pd text,
+  forallb c15_sw_item_ok (items_of pd) = true ->
+  sw_generate uc cfg pd = Ok text ->
+  exists items trailer parts,
+    topsort (items_of pd) = Ok items /\ Permutation items (items_of pd) /\
+    (trailer = [] \/ trailer = c15_sw_trailer_docs) /\
+    text = text_of (c15_file_pieces C15sw parts) /\
+    docs_of (c15_file_pieces C15sw parts) = flat_map (c15_sw_item_docs uc) items ++ trailer /\
+    c15_contained C15sw LCode (mark (c15_file_pieces C15sw parts)) =
+    forallb safe_sw (flat_map (c15_sw_item_docs uc) items).
+Proof. exact Proofs.C15_SwiftItem.C15_sw_file. Qed.
+Print Assumptions C15_sw_file.
+Theorem C15_sw_file_line_free : forall (uc : unicode) (cfg : sw_config),
+  c15_sw_raw (sw_prefix cfg) = true ->
+  c15_mappings_plain C15sw (sw_type_mappings cfg) = true ->
+  forallb (c15_plain C15sw) (sw_default_decorators cfg) = true ->
+  forallb (c15_plain C15sw) (sw_default_generic_constraints cfg) = true ->
+  forallb (c15_plain C15sw) (sw_codablevoid_constraints cfg) = true ->
+  c15_sw_version_ok (sw_version cfg) = true ->
+  forall pd text,
+  forallb c15_sw_item_ok (items_of pd) = true ->
+  Forall (fun it => Forall (fun d => safe_line eol_lf_cr d = true) (c15_item_docs it)) (items_of pd) ->
+  sw_generate uc cfg pd = Ok text ->
+  exists items trailer parts,
+    topsort (items_of pd) = Ok items /\ Permutation items (items_of pd) /\
+    (trailer = [] \/ trailer = c15_sw_trailer_docs) /\
+    text = text_of (c15_file_pieces C15sw parts) /\
+    docs_of (c15_file_pieces C15sw parts) = flat_map (c15_sw_item_docs uc) items ++ trailer /\
+    c15_contained C15sw LCode (mark (c15_file_pieces C15sw parts)) = true.
+Proof. exact Proofs.C15_SwiftItem.C15_sw_file_line_free. Qed.
+Print Assumptions C15_sw_file_line_free.
